@@ -1,6 +1,7 @@
 package core
 
 import (
+	"io"
 	"context"
 	"errors"
 	"fmt"
@@ -90,7 +91,11 @@ func promOpts(o Opts) promql.EngineOpts {
 func EngineOpts(o Opts, reg prometheus.Registerer) engine.Opts {
 	po := promOpts(o)
 	po.Reg = reg
-	return engine.Opts{EngineOpts: po, LogicalOptimizers: optimizers(o.Optimizers), DisableFallback: !o.Fallback}
+	eo := engine.Opts{EngineOpts: po, LogicalOptimizers: optimizers(o.Optimizers), DisableFallback: !o.Fallback}
+	if o.Debug {
+		eo.DebugWriter = io.Discard
+	}
+	return eo
 }
 
 func qopts(o Opts) *promql.QueryOpts {
